@@ -191,6 +191,36 @@ def _work(args):
     return n, fails[:5]
 
 
+def late_registration(B, orders):
+    """'the choice does not depend on registration order or earlier lookups': every lookup is made once when only a PREFIX of the backends is registered (which may memoise
+    a choice for its tensor types) and again after the rest has been registered - the second answer must be the documented selection over the full registry"""
+    ents = entries("eager")
+    spec = Spec(ents)
+    lks = [l for l in lookups() if not isinstance(l[0], tuple)]
+    n, fails = 0, []
+    for order in orders:
+        order = list(order)
+        for cut in (1, 2, 3, len(order) - 1):
+            reg, objs = build(ents, order[:cut], B)
+            for arg, tt in lks:
+                outcome(reg, objs, arg, tt, B)
+            for i in order[cut:]:
+                e = ents[i]
+                b = B.Backend(ops={}, name=e["name"], priority=e["priority"], optimizations=[], compiler=None, is_supported_tensor=lambda t, acc=e["accepts"]: type(t) in acc, get_shape=None)
+                objs[e["name"]] = b
+                reg.register(b)
+            for arg, tt in lks:
+                n += 1
+                got = outcome(reg, objs, arg, tt, B)
+                exp = spec.select(arg, [], [TENSORS[t] for t in tt], set())
+                if got != exp:
+                    fails.append({"detail": f"backends {[ents[i]['name'] for i in order[:cut]]} registered, all lookups made, then {[ents[i]['name'] for i in order[cut:]]} registered: get({arg!r}, {tt}) gives {got}, "
+                                            f"documented selection over the full registry is {exp} (a choice memoised before the registration survives it)"})
+            if len(fails) > 3:
+                return n, fails[:3]
+    return n, fails[:3]
+
+
 def with_blocks(B):
     """nested with-blocks on a fresh registry: the innermost active block decides, and leaving a block restores the enclosing one"""
     ents = entries("eager")
@@ -267,6 +297,12 @@ def run(tier, seed):
     for k in c11_registry.KERNELS + c11_names.KERNELS:
         chk.add_kernel(run_kernel(k, tier))
     rng = random.Random(seed)
+    m0 = list(range(len(entries("eager"))))
+    lr_orders = [m0, m0[::-1]] + [rng.sample(m0, len(m0)) for _ in range(4 if tier == "quick" else 60)]
+    n_lr, f_lr = late_registration(B, lr_orders)
+    for f in f_lr[:1]:
+        chk.violation("C11.B.late_registration", f["detail"], replay={"kind": "case", "case": f}, found_input=True)
+    chk.add_bounded("lookups before and after further backends are registered (eager registration, prefix cuts 1/2/3/n-1)", f"{len(lr_orders)} registration orders x 4 cuts x all lookups", n_lr, n_lr, failures=f_lr)
     jobs = []
     for variant in ("eager", "lazy", "failing", "tie"):
         m = len(entries(variant))
